@@ -93,6 +93,19 @@ def run_mem(case):
                         issued.append({'op': 'read', 'mem': m.id, 'addr': a, 'len': ln_, 'accepted': bool(acc), 'snapshot': dev.mem.mems[m.id].peek(a, ln_),
                                        'maybe_superseded': False})
                 cf.mem.mem_read_failed_cb.add_callback(retry_read)
+            if case.get('chain_on_ok'):
+                # an application that writes the next block from inside the completion notification of the previous one
+                def chain(m, a):
+                    if not chained and not env.world.fault_fired and cf.link is not None and sizes[m.id] >= 128:
+                        chained.append((m.id, a))
+                        ln_ = case['chain_on_ok']
+                        a2 = (a + 61) % (min(sizes[m.id], 4096) - ln_)
+                        data = _data(ln_, 9)
+                        cf.mem.write(m, a2, data)
+                        out.feat('write-from-completion-notification')
+                        issued.append({'op': 'write', 'mem': m.id, 'addr': a2, 'len': ln_, 'data': data, 'accepted': True, 'maybe_superseded': False})
+                cf.mem.mem_write_cb.add_callback(chain)
+        chained = []
         retried = []
         retried_r = []
         attach()
@@ -190,6 +203,7 @@ def run_mem(case):
                         if op['gap']:
                             s.sleep(op['gap'])
                         continue
+                    late = late or bool(env.world.fault_fired)
                     issued.append({'op': 'read', 'mem': mid, 'addr': addr, 'len': ln, 'accepted': bool(acc), 'snapshot': dev.mem.mems[mid].peek(addr, ln),
                                    'maybe_superseded': late})
                 else:
@@ -204,6 +218,9 @@ def run_mem(case):
                         cf.mem.write(m, addr, data, flush_queue=op['flush'], progress_cb=lambda msg, pct, prog=prog: prog.append(pct))
                     else:
                         cf.mem.write(m, addr, data, flush_queue=op['flush'])
+                    # a call that was still in progress when the link error was raised is like one made after it: the library
+                    # had not registered the request when it failed everything that was pending
+                    late = late or bool(env.world.fault_fired)
                     issued.append({'op': 'write', 'mem': mid, 'addr': addr, 'len': ln, 'data': data, 'accepted': True, 'maybe_superseded': late})
                 if ln > 25 or (op['op'] == 'read' and ln > 20):
                     multi = True
@@ -346,6 +363,9 @@ def run_mem(case):
         try:
             env.world.reply_filter = None
             net.fault = None
+            chained.append('probing')       # the application's chained write belongs to the history, not to the probes
+            retried.append('probing')
+            retried_r.append('probing')
             if cf.link is None:
                 if not cfharness.connect(env, cf, rec, wait_for='fully_connected'):
                     out.fail('mem:reconnect-failed', '%s: events %r' % (desc, rec.names()))
@@ -405,7 +425,7 @@ def mem_case(draw):
         drop = {'k': draw(st.integers(1, 24)), 'reporter': draw(st.sampled_from(['driver', 'sender', 'driver-quiet']))}
     return {'sizes': sizes, 'ops': ops, 'needs_resending': resend,
             'policy': {'delays': delays, 'dups': dups, 'errors': errors, 'dup_gap': draw(st.sampled_from([0.0001, 0.002, 0.3]))},
-            'drop': drop, 'schedule': draw(_sched), 'asap': draw(st.booleans()), 'retry_on_fail': draw(st.sampled_from([False, False, True])),
+            'drop': drop, 'schedule': draw(_sched), 'asap': draw(st.booleans()), 'retry_on_fail': draw(st.sampled_from([False, False, True])), 'chain_on_ok': draw(st.sampled_from([None, None, None, 10, 26, 40, 60])),
             'overlap_reads': draw(st.sampled_from([False, False, True]))}
 
 
@@ -599,6 +619,13 @@ def flush_cases(tier):
                             ops.append({'op': 'write', 'mem': 0, 'addr': 200, 'len': 12, 'seed': 4, 'flush': False, 'gap': 0})
                         yield {'sizes': [256], 'ops': ops, 'needs_resending': False, 'policy': {'delays': [delay], 'dups': [], 'errors': [], 'dup_gap': 0.001},
                                'drop': None, 'schedule': {'prefix': [], 'seed': la + lc, 'rate': 0.0}}
+    # a single write, the next one issued from inside its completion notification
+    for la in (10, 30):
+        for chain in (10, 26, 40, 60):
+            for delay in (0.001, 0.02):
+                yield {'sizes': [256], 'ops': [{'op': 'write', 'mem': 0, 'addr': 0, 'len': la, 'seed': 1, 'flush': False, 'gap': 0}], 'needs_resending': False,
+                       'policy': {'delays': [delay], 'dups': [], 'errors': [], 'dup_gap': 0.001}, 'drop': None, 'chain_on_ok': chain,
+                       'schedule': {'prefix': [], 'seed': la, 'rate': 0.0}}
 
 
 def single_preemption_cases(tier):
